@@ -9,7 +9,7 @@ def run(ctx):
     RR.empty_query_comparator(ctx, "R12.a", comps)
     RR.limit_provenance(ctx, "R12.b")
     RR.bounded_selection(ctx, "R12.b")
-    RR.search_chain_shape(ctx, "R12.c")
+    RR.search_chain_shape(ctx, "R12.c", parts=("result", "branch", "comparator"))
     RR.hit_filter(ctx, "R12.c")
     RR.position_mapping(ctx, "R12.c")
     RS.memo_coherence(ctx, "R12.d")
